@@ -14,7 +14,7 @@ RULE = ("cases: every ordered pair of {-2..2}^3 (zero vector included) as 2D poi
         "with random rational/dyadic multipliers, collections with random dependent subsets (mask check), mixed coplanar/skew collections; "
         "non-trivial = at least one operand position is degenerate or the call is a collection call; distinct by operand digest.")
 SHARDS = (8, 16)
-REQUIRED = ["jm.raise", "is_coplanar"]
+REQUIRED = ["jm.raise", "is_coplanar", "is_zero"]
 ASSUMPTIONS = ["Fraction arithmetic is exact", "numpy correct", "wrappers behaviour-preserving"]
 EXHAUSTIVE = {"quick": ["all 15625 ordered pairs of {-2..2}^3 incl. zero (2D points / lines)", "all 6561 ordered pairs of {-1,0,1}^4 incl. zero (3D points / planes)"],
               "thorough": ["all 15625 ordered pairs of {-2..2}^3 incl. zero (2D points / lines)", "all 6561 ordered pairs of {-1,0,1}^4 incl. zero (3D points / planes)"]}
@@ -130,8 +130,35 @@ def _dual(m, ts):
     return d
 
 
+def post_is_zero(ctx, call):
+    """Tensor.is_zero decides every dependence verdict and mask: it must be 'all tensor entries are zero within the tolerance' at each
+    collection position, for every size of the collection (judged on every call, the library's internal ones included)."""
+    if call.exc is not None:
+        return
+    self = call.args[0]
+    tol = call.args[1] if len(call.args) > 1 else call.kwargs.get("tol", 1e-8)
+    arr = np.asarray(self.array)
+    if arr.dtype.kind not in "iufc" or not np.all(np.isfinite(arr)):
+        return
+    axes = tuple(sorted(set(self._covariant_indices) | set(self._contravariant_indices)))
+    mag = np.abs(arr).max(axis=axes) if axes else np.abs(arr)
+    want = mag <= tol
+    band = (mag > 0.5 * tol) & (mag < 2 * tol)  # entries within a factor 2 of the tolerance are not judged (isclose adds a relative term)
+    got = np.asarray(call.result)
+    if got.shape != want.shape:
+        ctx.judge("is_zero", False, [arr], what=f"is_zero has shape {got.shape}, the collection has shape {want.shape}", op="Tensor.is_zero", nontrivial=True)
+        return
+    bad = (got != want) & ~band
+    ctx.judge("is_zero", not bool(np.any(bad)), [arr[tuple(np.argwhere(bad)[0])] if np.any(bad) and bad.ndim else arr], op="Tensor.is_zero",
+              what=f"is_zero wrong at {int(np.count_nonzero(bad))} of {bad.size} positions (first: {tuple(int(x) for x in np.argwhere(bad)[0]) if np.any(bad) else ()})",
+              nontrivial=bool(arr.size > 4), feat={"size": int(arr.size)})
+
+
 def install(ctx):
+    import geometer.base as B
     import geometer.point as P
+
+    core.wrap_method(B.Tensor, "is_zero", post_is_zero)
 
     core.wrap_function(P, "_join_meet_duality", post_jm)
     jm.install_public(post_jm)
@@ -371,7 +398,31 @@ def g_collection(ctx, rng, i):
     _method_form(g, fn, args)
 
 
+def g_large(ctx, rng, i):
+    """Large collections (hundreds to thousands of positions, one and two axes) of lattice objects with a sprinkling of dependent
+    positions: the mask must be right whatever internal path the size of the arrays selects."""
+    g = G()
+    n = 3 + i % 2
+    lat = L3Z if n == 3 else L4Z
+    shape = [(400,), (1100,), (20, 20), (3, 150), (40, 30)][(i // 2) % 5]
+    k = int(np.prod(shape))
+    A = np.array([lat[j] for j in rng.integers(0, len(lat), size=k)])
+    B = np.array([lat[j] for j in rng.integers(0, len(lat), size=k)])
+    dep = rng.random(k) < [0.0, 0.02, 0.3][(i // 10) % 3]
+    B[dep] = A[dep] * rng.choice([1, -2, 3], size=(int(dep.sum()), 1))
+    A, B = A.reshape(shape + (n,)), B.reshape(shape + (n,))
+    as_points = (i // 20) % 2 == 0
+    if as_points:
+        _try(g.join, g.PointCollection(A), g.PointCollection(B))
+        _try(g.PointCollection(B).join, g.PointCollection(A))
+    else:
+        cls = g.LineCollection if n == 3 else g.PlaneCollection
+        _try(g.meet, cls(A), cls(B))
+        _try(g.meet, cls(B), cls(A))
+
+
 GROUPS = [
+    {"name": "large", "fn": g_large, "quick": 60, "thorough": 600},
     {"name": "lattice2d", "fn": g_lattice2d, "quick": 125 * 125, "thorough": 125 * 125},
     {"name": "lattice3d", "fn": g_lattice3d, "quick": 81 * 81, "thorough": 81 * 81},
     {"name": "single", "fn": g_single, "quick": 1760, "thorough": 17600},
